@@ -339,6 +339,11 @@ def rule_terminal_type(P):
                                "terminal(%s) encodes a BOOLEAN terminal, but %s does not require its result forest to be BOOLEAN: in an INTEGER or REAL result forest the handle decodes to -1 / NaN instead of 1" % (_nz(ev["args"][0]), (f["cls"] or "").replace(M, "")), ev["line"], inst=f["inst"]))
                 else:
                     t = _nz(ev["args"][1]) if len(ev["args"]) > 1 else ""
+                    if re.fullmatch(r"\w+", t):
+                        # a local holding the type: every definition of it must be the result forest's terminal type
+                        ds = [_nz(e2.get("rhs", "")) for b2 in f["cfg"]["blocks"] for e2 in b2["ev"] if e2["k"] == "ldef" and e2["var"] == t]
+                        if ds and all(d == "resF->getTerminalType()" for d in ds):
+                            t = "resF->getTerminalType()"
                     if re.fullmatch(r"resF->getTerminalType\(\)", t):
                         R.ok(iid, where(f, ev["line"]))
                     else:
